@@ -223,3 +223,5 @@ PROPS['C03']['units'] = PROPS['C03']['units'] + [_s.SrcCalloutsNative]
 for _p in ('C08', 'C09'):
     PROPS[_p]['units'] = PROPS[_p]['units'] + [cli.GetFileListNative]
 PROPS['C04']['units'] = PROPS['C04']['units'] + [plugins.PluginWorldNative]
+# C06: what a decoder prints on stdout would precede the document: the user-data decoders (where arbitrary text flows) are silent
+PROPS['C06']['units'] = PROPS['C06']['units'] + [plugins.UDToJSON, plugins.Parse, pelcore.ParsePELAny]
